@@ -199,6 +199,19 @@ pub fn run(mut run: Run) -> i32 {
             Shape::new(ag, map_geom_f(&s.g, &|c| geo::Coord { x: 2.0 * c.x, y: 2.0 * c.y }), s.fam)
         })
         .collect();
+    // polygons that have holes themselves, sitting in the hole of a donut (both operands with interior rings, in both orders)
+    let mut inner = inner;
+    for (shell, hole) in [
+        (vec![(0, 0), (4, 0), (4, 4), (0, 4)], vec![(1, 1), (3, 1), (3, 3), (1, 3)]),
+        (vec![(0, 0), (4, 0), (0, 4)], vec![(1, 1), (2, 1), (1, 2)]),
+        (vec![(0, 1), (4, 1), (4, 4), (0, 4)], vec![(1, 2), (3, 2), (3, 3), (1, 3)]),
+        (vec![(1, 0), (4, 2), (2, 4), (0, 3)], vec![(2, 2), (3, 2), (2, 3)]),
+    ] {
+        let p = Poly { shell, holes: vec![hole] };
+        assert!(poly_valid(&p), "inner polygon with a hole invalid");
+        inner.push(Shape::new(AG::Polys(vec![p.clone()]), geo::Geometry::Polygon(poly(&p)), "PGHin"));
+        inner.push(Shape::new(AG::Polys(vec![p.clone()]), geo::Geometry::MultiPolygon(geo::MultiPolygon(vec![poly(&p)])), "PGHin"));
+    }
     let (nd, ni) = (dshapes.len(), inner.len());
     run.stage("inside-hole", nd * ni * 2, |idx, acc| {
         let (d, s) = (&dshapes[(idx / 2) / ni], &inner[(idx / 2) % ni]);
@@ -208,6 +221,58 @@ pub fn run(mut run: Run) -> i32 {
             check_pair(acc, idx, s, d, "[hole]");
         }
     });
+    // separations whose square leaves the floating-point range although the distance does not (2^520 / 2^-601; f32 2^64 / 2^-80): point-only and
+    // point-to-segment pairs on a 3x3 lattice scaled by an exact power of two
+    {
+        let pts: Vec<IP> = (0..9).map(|k| (k / 3, k % 3)).collect();
+        run.stage("extreme-magnitudes", 9 * 9 * 9 * 2, |idx, acc| {
+            let (p, a, b) = (pts[idx / 2 % 9], pts[(idx / 2 / 9) % 9], pts[idx / 2 / 81]);
+            let huge = idx % 2 == 1;
+            acc.class(format!("extreme {} {}", if huge { "2^520" } else { "2^-520" }, if a == b { "point-point" } else { "point-segment" }));
+            let want2 = if a == b { Rat::int((p.0 - a.0).pow(2) + (p.1 - a.1).pow(2)) } else { d2_hp_seg(&HP::int(p), a, b) };
+            let want = want2.f().sqrt();
+            macro_rules! go {
+                ($t:ty, $e:expr, $es:expr, $tol:expr) => {{
+                    let sc: $t = (2.0 as $t).powi(if huge { $e } else { -$es });
+                    let cv = |q: IP| geo::Coord::<$t> { x: q.0 as $t * sc, y: q.1 as $t * sc };
+                    let pt = geo::Point(cv(p));
+                    let forms: Vec<(&str, Result<$t, String>)> = if a == b {
+                        let q = geo::Point(cv(a));
+                        vec![
+                            ("Point x Point", guard(|| geo::Distance::distance(&geo::Euclidean, &pt, &q))),
+                            ("Point x MultiPoint", guard(|| geo::Distance::distance(&geo::Euclidean, &pt, &geo::MultiPoint(vec![q])))),
+                            ("Geometry x Geometry", guard(|| geo::Distance::distance(&geo::Euclidean, &geo::Geometry::Point(pt), &geo::Geometry::Point(q)))),
+                            ("GeometryCollection x Point", guard(|| geo::Distance::distance(&geo::Euclidean, &geo::GeometryCollection(vec![geo::Geometry::Point(q)]), &pt))),
+                        ]
+                    } else {
+                        let line = geo::Line::new(cv(a), cv(b));
+                        vec![
+                            ("Point x Line", guard(|| geo::Distance::distance(&geo::Euclidean, &pt, &line))),
+                            ("Line x Point", guard(|| geo::Distance::distance(&geo::Euclidean, &line, &pt))),
+                            ("Point x LineString", guard(|| geo::Distance::distance(&geo::Euclidean, &pt, &geo::LineString::from(vec![cv(a), cv(b)])))),
+                        ]
+                    };
+                    acc.evals += forms.len() as u64;
+                    for (name, got) in forms {
+                        let ok = match &got {
+                            Ok(d) => {
+                                let d = *d as f64 / sc as f64;
+                                if want2.is_zero() { d == 0.0 } else { (d - want).abs() <= $tol * want }
+                            }
+                            Err(_) => false,
+                        };
+                        if !ok {
+                            acc.viol(format!("distance<{}> {} wrong at scale 2^{}", stringify!($t), name, if huge { $e } else { -$es }), idx, || {
+                                json!({"p": [p.0, p.1], "a": [a.0, a.1], "b": [b.0, b.1], "scale": format!("2^{}", if huge { $e } else { -$es }), "expected_unscaled": want, "got": format!("{:?}", got)})
+                            });
+                        }
+                    }
+                }};
+            }
+            go!(f64, 520, 601, 1e-12);
+            go!(f32, 64, 80, 1e-5);
+        });
+    }
     // variants: every representation of the same point sets gives the same value
     let vstride = run.ctx.pick(11, 3);
     let base: Vec<&Shape> =
